@@ -1,7 +1,8 @@
 # C13: entropy, KL divergence, conditional entropy and mutual information
 from . import lin, common as C
 PROP = "C13"
-PROPS_FILE = "props/C13.v"
+PROPS_FILE = ["props/C13.v", "props/GI4.v"]
+TRUSTED_EXTRA = ["props/GI4.v (entropy, KL, expected log-densities and the expected exp noise as iterated improper Riemann integrals, at Coq's real numbers: stdlib Reals + Coquelicot + base/RField.v) depends on the standard-library axioms ClassicalDedekindReals.sig_not_dec, sig_forall_dec, FunctionalExtensionality.functional_extensionality_dep, Classical_Prop.classic, Epsilon.epsilon_statement"]
 RULE = ('cases = entropy / conditional_entropy / mutual_information for every conditional class x batch layout x dimension regime; kl_divergence with R=R, R=1 vs n, n vs 1 and with identical arguments (must be 0)' "; rational parameters (small integers over denominators 1,2,4; SPD = B B' + d I, cond <= 1e3), random constructor "
         "argument combination; non-trivial = more than one scalar dimension/component involved; distinct = SHA1 of the input description")
 EXPLANATION = ('model entropy, kl_divergence (Pdf.v), conditional_entropy, mutual_information (Cond.v) at Qc in the log domain vs implementation; oracle: closed forms from numpy slogdet/solve of the exact joint moments; non-negativity of KL and MI')
